@@ -81,11 +81,13 @@ theorem parse_sound {g : G} {f : Nat} {p : P} {sk : Sk} {inp : List Nat} {r : Re
     | ignore a => simp only [S.parse] at h; grind
     | named a => simp only [S.parse] at h; grind
     | ref i => simp only [S.parse] at h; exact .ref (ih h)
+    | map m a => simp only [S.parse] at h; grind
     | plus a => simp only [S.parse] at h; exact hs _ trivial h
     | sep a b => simp only [S.parse] at h; exact hs _ trivial h
     | list o a b c => simp only [S.parse] at h; exact hs _ trivial h
     | uint m => simp only [S.parse] at h; exact hs _ trivial h
     | int m => simp only [S.parse] at h; exact hs _ trivial h
+    | float => simp only [S.parse] at h; exact hs _ trivial h
 
 theorem skip_complete {sk : Sk} {inp : List Nat} {r : SkRes} (h : SkDerives sk inp r) :
     ∃ f, S.skip f sk inp = some r := by
@@ -310,6 +312,16 @@ theorem parse_complete {g : G} {p : P} {sk : Sk} {inp : List Nat} {r : Res} (h :
     have e0 := parse_mono (f' := f0) (by omega) e0
     simp [S.parse, e0]
   | namedOk h0 ih0 =>
+    obtain ⟨f0, e0⟩ := ih0
+    refine ⟨f0 + 1, ?_⟩
+    have e0 := parse_mono (f' := f0) (by omega) e0
+    simp [S.parse, e0]
+  | mapOk h0 ih0 =>
+    obtain ⟨f0, e0⟩ := ih0
+    refine ⟨f0 + 1, ?_⟩
+    have e0 := parse_mono (f' := f0) (by omega) e0
+    simp [S.parse, e0]
+  | mapErr h0 ih0 =>
     obtain ⟨f0, e0⟩ := ih0
     refine ⟨f0 + 1, ?_⟩
     have e0 := parse_mono (f' := f0) (by omega) e0
